@@ -1,4 +1,5 @@
 import Ach.Proofs.Create
+import Ach.Generated.Topics
 import Ach.Model.CreateDriver
 /-!
 # C05 — Create tabulates a valid, stable file; offsets balance every batch  (batch level)
@@ -104,5 +105,8 @@ example : ∃ b', build 1 (demoBatch [demoEntry 22 100 "" false, demoEntry 27 50
     (∀ e ∈ b'.entries, e.isOffset = true → buildEntry b' 0 e = some e) := by
   refine ⟨_, rfl, ?_⟩
   decide +kernel
+
+/-- F: the functions `Ach.Model.Create` mirrors by hand have the bodies the model was written against -/
+theorem create_functions_unchanged : hashes_create = [("File.Create", 206460734504824362), ("File.createFileADV", 7914545407192902951), ("Batch.build", 9945901091926620191), ("Batch.upsertOffsets", 13389808617865457086), ("createOffsetEntryDetail", 819736143008900615), ("lastTraceNumber", 11642321305391312867), ("EntryDetail.SetTraceNumber", 556215407367731719), ("IATBatch.build", 9896163527177086157), ("IATBatch.Create", 16606746237067222751)] := by decide +kernel
 
 end Ach.Props.C05
